@@ -112,6 +112,26 @@ impl<B> CallHolder<B> {
         }
     }
 
+    #[cfg(feature = "verif-hooks")]
+    pub(crate) fn verif_holder_name(&self) -> &'static str {
+        match self {
+            CallHolder::WithoutBody(_) => "WithoutBody",
+            CallHolder::WithBody(_) => "WithBody",
+            CallHolder::RecvResponse(_) => "RecvResponse",
+            CallHolder::RecvBody(_) => "RecvBody",
+            CallHolder::Empty => "Empty",
+        }
+    }
+
+    #[cfg(feature = "verif-hooks")]
+    pub(crate) fn verif_writer(&self) -> Option<(bool, bool, bool)> {
+        match self {
+            CallHolder::WithoutBody(v) => Some(v.verif_writer()),
+            CallHolder::WithBody(v) => Some(v.verif_writer()),
+            _ => None,
+        }
+    }
+
     pub(crate) fn convert_to_send_body(&mut self) {
         if !matches!(self, CallHolder::WithoutBody(_)) {
             return;
